@@ -32,6 +32,7 @@ pub fn gen_doc(lang: &str, n: usize) -> (Vec<u8>, Vec<usize>) {
         "indent" => { while i * 8 < n { edit_at.push(s.len()); s.push_str(&format!("{}:\n  y z\n  w:\n    q\n", names[i % 5])); i += 1; } }
         "glr" => { while i * 5 < n { edit_at.push(s.len()); s.push_str(&format!("{} * b;\nc d;\n", names[i % 5])); i += 1; } }
         "lexla" => { while i * 6 < n { edit_at.push(s.len()); s.push_str(&format!("{} abcd 1.5 .. /x/ -->\n", names[i % 5])); i += 1; } }
+        "lookfar" => { while i * 6 < n { edit_at.push(s.len()); s.push_str(&format!("{} bc-a! a-bc bc\n", names[i % 5])); i += 1; } }
         "pstring" => { while i * 6 < n { edit_at.push(s.len() + 2); s.push_str(&format!("%({}(b)c) w {}\n", names[i % 5], i % 77)); i += 1; } }
         _ => {}
     }
